@@ -387,6 +387,34 @@ func c08scenarios() []c08scenario {
 			}
 			return w
 		}},
+		{"S15 attribute objects built once by the caller (slog.String, slog.Int, NewAttr, Group) and passed to every call", 0, func(th, cp int) *c08world {
+			w := &c08world{rec: &lockedRec{}}
+			ls := []*slog.Entry{c08logger("s15j", "json", w.rec), c08logger("s15l", "logfmt", w.rec)}
+			shared := []slog.Attr{slog.String("req", "id-1"), slog.Int("n", 7), slog.NewAttr("who", "me"), slog.Group("g", "x", 1, "y", "z")}
+			w.snap = func() string {
+				var sb strings.Builder
+				for _, a := range shared {
+					if a == nil {
+						sb.WriteString("<nil>,")
+						continue
+					}
+					fmt.Fprintf(&sb, "%s=%v,", a.Key(), a.Value())
+				}
+				return sb.String()
+			}
+			for t := 0; t < th; t++ {
+				var cs []func()
+				for i := 0; i < cp; i++ {
+					t, i := t, i
+					l := ls[t%2]
+					cs = append(cs, func() {
+						l.Info(fmt.Sprintf("s15 thread %d call %d", t, i), shared[0], "own", t, shared[1], shared[2], shared[3])
+					})
+				}
+				w.calls = append(w.calls, cs)
+			}
+			return w
+		}},
 	}
 }
 
